@@ -11,6 +11,7 @@ import (
 // renderCase builds the message, renders it `renders` times on an unlimited destination and adds the
 // correspondence case. Returns the built pieces for the oracles.
 func renderCase(c *Ctx, spc *MsgSpec, renders int, branch string) (outs [][]byte, ok bool) {
+	ok = true
 	m, ops, err := spc.Build()
 	if err != nil {
 		c.Note("build failed: %v", err)
@@ -40,10 +41,14 @@ func renderCase(c *Ctx, spc *MsgSpec, renders int, branch string) (outs [][]byte
 		ops = append(ops, res.line)
 		wants = append(wants, res.want())
 		outs = append(outs, res.out)
+		if res.err != nil {
+			ok = false // WriteTo reported an error (e.g. an invalid user boundary): nothing to read
+			branch = "writeto-error:"
+		}
 	}
 	c.AddCase(Case{Line: "msg " + strings.Join(ops, " "), Want: strings.Join(wants, " "), Nontrivial: len(spc.Parts)+len(spc.Files) > 1,
 		Branch: branch + spc.shape(), Desc: spc})
-	return outs, true
+	return outs, ok
 }
 
 func init() {
@@ -53,7 +58,21 @@ func init() {
 			n := c.N(1500, 60000)
 			for i := 0; i < n; i++ {
 				spc := genSpec(c.Rng, genOpts{maxParts: 3, maxFiles: 3, noFails: true})
-				renderCase(c, spc, 1, "")
+				if outs, ok := renderCase(c, spc, 1, ""); ok {
+					oracleMessage(c, spc, outs[0], true, false)
+				}
+			}
+		}})
+
+	register(Suite{Name: "c02-render", Property: "C02",
+		Rule: "messages whose subject, generic headers, descriptions, file names and content-ids come from an adversarial text generator (CR, LF, NUL, control, non-ASCII, encoded-word look-alikes, any length), Q and B header encoders, all shapes; rendered by the implementation and the model; strict field scanner on every header section; non-trivial = some text needs encoding; distinct by operation list",
+		Run: func(c *Ctx) {
+			n := c.N(1500, 60000)
+			for i := 0; i < n; i++ {
+				spc := genSpec(c.Rng, genOpts{maxParts: 2, maxFiles: 2, noFails: true, textHeavy: true, smallContent: true})
+				if outs, ok := renderCase(c, spc, 1, ""); ok {
+					oracleMessage(c, spc, outs[0], false, true)
+				}
 			}
 		}})
 }
